@@ -45,12 +45,14 @@ var (
 			return &Stack{}
 		},
 	}
-	bufferPool   = sync.Pool{}
-	programCache = caching.CreateProgramCache()
+	bufferPool     = sync.Pool{}
+	programCache   = caching.CreateProgramCache()
+	programCachePV = caching.CreateProgramCache()
 )
 
 func ResetProgramCache() {
 	programCache.Reset()
+	programCachePV.Reset()
 }
 
 func NewBytes() *[]byte {
